@@ -216,6 +216,11 @@ class HndBase:
             t = int(f["t"])
             term = e.term
             k = t // TICK_MS - tprev // TICK_MS      # keep-alive boundaries crossed, read off the virtual clock
+            if term is not None and term.startswith("(SBurst") and k > 0:
+                # a burst of 64 or more commands blocks the task on the full channel until the harness drains it one
+                # virtual millisecond later; if that millisecond is a keep-alive instant, the timer branch and the rest of
+                # the burst are both ready and select! may take either first: not determined -- the history ends here
+                break
             if term is None:
                 term = "(STicks %d)" % k
             elif k > 0:
